@@ -10,11 +10,12 @@
 (* K  : configuration record                                               *)
 (*        policy "RR" | "BF", named [task -> pilot | "none"],              *)
 (*        cores [task -> Nat], hwm [pilot -> Nat], lo, hi (eligible state  *)
-(*        window as PVal numbers), devEarly, devRaise (known deviations)   *)
+(*        window as PVal numbers), devEarly, devRaise, devAddFresh,        *)
+(*        devCtrRaise (deviations, see TmgrSched)                          *)
 (* cs : the scheduler's own bookkeeping                                    *)
 (*        role  [pilot -> "none" | "added" | "removed"]    _pilots[p][role]*)
 (*        pst   [pilot -> state name]                      _pilots[p][state]*)
-(*        info  [pilot -> [used, tasks, done]]             _pilots[p][info]*)
+(*        info  [pilot -> [used, tasks, done, init]]       _pilots[p][info]*)
 (*        early [pilot -> Seq(task)]                       _early          *)
 (*        wait  Seq(task)                                  _wait_pool      *)
 (*        pids  Seq(pilot), idx Nat                        _pids, _idx     *)
@@ -50,9 +51,16 @@ Progress(cur, tgt) ==
   ELSE IF PVal(cur) >= PVal(tgt)                THEN [st |-> cur, ex |-> FALSE]
   ELSE                                               [st |-> tgt, ex |-> FALSE]
 
+\* the furthest state seen so far: what a pilot record is meant to keep, whatever
+\* the order in which notifications and add_pilots documents arrive (a final state
+\* which contradicts DONE is ignored)
+Furthest(cur, tgt) == IF Progress(cur, tgt).ex THEN cur ELSE Progress(cur, tgt).st
+
 InWin(K, s) == PVal(s) >= K.lo /\ PVal(s) <= K.hi
 
-FreshInfo == [used |-> 0, tasks |-> {}, done |-> {}]
+\* init: Backfilling.add_pilots filled the info dict (it is {} before)
+FreshInfo == [used |-> 0, tasks |-> {}, done |-> {}, init |-> TRUE]
+NoInfo    == [used |-> 0, tasks |-> {}, done |-> {}, init |-> FALSE]
 
 (* ---- RoundRobin._schedule_tasks(tasks) ---------------------------------- *)
 RECURSIVE RRLoop(_, _, _, _, _)
@@ -85,7 +93,7 @@ BFLoop(K, info, elig, wait, i, fwd, uns) ==
                     u     == info[p].used + K.cores[t]
                     info2 == [info EXCEPT ![p] = [used  |-> u,
                                                   tasks |-> info[p].tasks \cup {t},
-                                                  done  |-> info[p].done]]
+                                                  done  |-> info[p].done, init |-> info[p].init]]
                     elig2 == IF u >= K.hwm[p] THEN Without(elig, {p}) ELSE elig
                 IN  BFLoop(K, info2, elig2, wait, i + 1, Append(fwd, <<t, p>>), uns)
 
@@ -120,22 +128,37 @@ StepSubmit(K, cs, B) ==
 \* add: sequence of <<pilot, state carried by the pilot document>>
 AddPids(add)    == [i \in 1 .. Len(add) |-> add[i][1]]
 AddState(add, p) == LET i == CHOOSE i \in 1 .. Len(add) : add[i][1] = p IN add[i][2]
-AddRaises(cs, add) == \E i \in 1 .. Len(add) : Progress(cs.pst[add[i][1]], add[i][2]).ex
 
 RECURSIVE EarlyFwd(_, _, _)
 EarlyFwd(early, P, i) ==
   IF i > Len(P) THEN <<>>
   ELSE [k \in 1 .. Len(early[P[i]]) |-> <<early[P[i]][k], P[i]>>] \o EarlyFwd(early, P, i + 1)
 
-\* defined for add messages whose states do not raise in _pilot_state_progress
+\* The record of a known pilot is reused: the state carried by the pilot document
+\* goes through _pilot_state_progress against the state learnt so far, whichever is
+\* older.  devAddFresh: the record is created afresh (state None), so the document
+\* wins.  A document whose final state contradicts a recorded DONE raises in
+\* _update_pilot_states (devCtrRaise, the code): the roles are set, the pilots
+\* before it in the message have their state updated, nothing else happens - no
+\* early bound tasks, no policy add_pilots.  Intended: the contradiction is ignored.
 StepAdd(K, cs, add) ==
   LET P       == AddPids(add)
       PS      == SeqSet(P)
       All     == DOMAIN cs.role
-      nst(p)  == Progress(cs.pst[p], AddState(add, p)).st
-      changed == {p \in PS : nst(p) # cs.pst[p]}
+      base(p) == IF K.devAddFresh THEN "none" ELSE cs.pst[p]
+      pr(p)   == Progress(base(p), AddState(add, p))
+      bad     == {i \in 1 .. Len(add) : pr(add[i][1]).ex}
+      raises  == K.devCtrRaise /\ bad # {}
+      upto    == IF raises
+                 THEN LET first == CHOOSE i \in bad : \A k \in bad : i <= k
+                      IN  {add[k][1] : k \in 1 .. (first - 1)}
+                 ELSE PS
+      nst(p)  == IF p \in upto THEN (IF pr(p).ex THEN base(p) ELSE pr(p).st) ELSE cs.pst[p]
+      changed == {p \in upto : nst(p) # base(p)}
       c2      == [cs EXCEPT !.role = [p \in All |-> IF p \in PS THEN "added" ELSE cs.role[p]],
-                            !.pst  = [p \in All |-> IF p \in PS THEN nst(p) ELSE cs.pst[p]]]
+                            !.pst  = [p \in All |-> IF p \in PS THEN nst(p) ELSE cs.pst[p]],
+                            !.info = [p \in All |-> IF p \in PS /\ K.devAddFresh THEN NoInfo
+                                                    ELSE cs.info[p]]]
       \* _update_pilot_states -> update_pilots(to_update)
       r3      == IF K.policy = "BF" /\ \E p \in changed : InWin(K, c2.pst[p])
                  THEN BFSchedule(K, c2) ELSE [cs |-> c2, fwd |-> <<>>]
@@ -151,18 +174,34 @@ StepAdd(K, cs, add) ==
                  ELSE BFSchedule(K, [c4 EXCEPT
                           !.info = [p \in All |-> IF p \in PS THEN FreshInfo ELSE c4.info[p]],
                           !.pids = @ \o P])
-  IN  [cs |-> r5.cs, fwd |-> r3.fwd \o efwd \o r5.fwd, ex |-> FALSE]
+  IN  IF raises THEN [cs |-> c2, fwd |-> <<>>, ex |-> TRUE]
+      ELSE [cs |-> r5.cs, fwd |-> r3.fwd \o efwd \o r5.fwd, ex |-> FALSE]
 
 (* ---- control_cb: remove_pilots -------------------------------------------- *)
-StepRemove(K, cs, PS) ==
-  [cs  |-> [cs EXCEPT !.role = [p \in DOMAIN cs.role |-> IF p \in PS THEN "removed" ELSE cs.role[p]],
-                      !.pids = Without(@, PS)],
-   fwd |-> <<>>, ex |-> FALSE]
+\* Ps: sequence.  The base class sets the roles; the policy's remove_pilots raises at
+\* the first pilot which is not in its pid list (only after a half finished add)
+\* list.remove(x): the first occurrence only
+RemoveFirst(s, x) ==
+  LET i == CHOOSE i \in 1 .. Len(s) : s[i] = x /\ \A k \in 1 .. (i - 1) : s[k] # x
+  IN  [k \in 1 .. (Len(s) - 1) |-> IF k < i THEN s[k] ELSE s[k + 1]]
+
+RECURSIVE RemoveLoop(_, _, _)
+RemoveLoop(pids, Ps, i) ==               \* -> [pids, ex]
+  IF i > Len(Ps) THEN [pids |-> pids, ex |-> FALSE]
+  ELSE IF Ps[i] \notin SeqSet(pids) THEN [pids |-> pids, ex |-> TRUE]
+  ELSE RemoveLoop(RemoveFirst(pids, Ps[i]), Ps, i + 1)
+
+StepRemove(K, cs, Ps) ==
+  LET PS == SeqSet(Ps)
+      r  == RemoveLoop(cs.pids, Ps, 1)
+  IN  [cs  |-> [cs EXCEPT !.role = [p \in DOMAIN cs.role |-> IF p \in PS THEN "removed" ELSE cs.role[p]],
+                          !.pids = r.pids],
+       fwd |-> <<>>, ex |-> r.ex]
 
 (* ---- _base_state_cb: one pilot notification ------------------------------- *)
 StepPState(K, cs, p, s) ==
   LET r == Progress(cs.pst[p], s)
-  IN  IF r.ex THEN [cs |-> cs, fwd |-> <<>>, ex |-> TRUE]
+  IN  IF r.ex THEN [cs |-> cs, fwd |-> <<>>, ex |-> K.devCtrRaise]
       ELSE IF r.st = cs.pst[p] THEN [cs |-> cs, fwd |-> <<>>, ex |-> FALSE]
       ELSE LET c1 == [cs EXCEPT !.pst[p] = r.st]
            IN  IF K.policy = "BF" /\ InWin(K, r.st)
@@ -177,13 +216,15 @@ TSLoop(K, info, B, bnd, i, res) ==
   ELSE LET t == B[i]
            p == bnd[t]
        IN  IF p = "none"                 THEN TSLoop(K, info, B, bnd, i + 1, res)
+           \* info is {} for a pilot whose add never got as far as the policy: KeyError
+           ELSE IF ~info[p].init         THEN [info |-> info, res |-> res, ex |-> TRUE]
            ELSE IF t \in info[p].done    THEN TSLoop(K, info, B, bnd, i + 1, res)
            ELSE IF t \notin info[p].tasks
                 THEN IF K.devRaise THEN [info |-> info, res |-> res, ex |-> TRUE]
                      ELSE TSLoop(K, info, B, bnd, i + 1, res)
            ELSE LET u  == info[p].used - K.cores[t]
                     i2 == [info EXCEPT ![p] = [used  |-> u, tasks |-> info[p].tasks,
-                                               done  |-> info[p].done \cup {t}]]
+                                               done  |-> info[p].done \cup {t}, init |-> TRUE]]
                 IN  IF u < 0 THEN [info |-> i2, res |-> TRUE, ex |-> TRUE]
                     ELSE TSLoop(K, i2, B, bnd, i + 1, TRUE)
 
